@@ -6,6 +6,7 @@ extern crate may;
 mod alloc;
 mod engine;
 mod explore;
+mod hist;
 mod props;
 mod report;
 mod util;
